@@ -86,7 +86,7 @@ def inject(nodes, kind, k):
 # traced runs
 # ---------------------------------------------------------------------------------------------
 
-def traced_run(nodes, ctx0, detail="hash", to_file=False, reuse_pipeline=None, launch_context=False):
+def traced_run(nodes, ctx0, detail="hash", to_file=False, reuse_pipeline=None, launch_context=False, transport=None):
     """Run with a JsonlTraceDriver. Returns dict(res=<run_real result>, records, files, driver_closed).
     `launch_context`: the run carries the metadata of a run of a run-space launch (what `semantiva run` sets before each run)."""
     pipegen.setup()
@@ -102,7 +102,7 @@ def traced_run(nodes, ctx0, detail="hash", to_file=False, reuse_pipeline=None, l
             tc = TraceContext()
             tc.set_run_space_fk(spec_id="0" * 64, launch_id="launch-for-c06", attempt=1, inputs_id=None)
             meta = {"trace_context": tc, "run_space_index": 0, "run_space_context": dict(ctx0)}
-        res = pipegen.run_real(nodes, ctx0, trace=driver, run_metadata=meta)
+        res = pipegen.run_real(nodes, ctx0, trace=driver, run_metadata=meta, transport=transport)
         files = rt.read_trace_files(target) if (target.exists()) else {}
         closed = getattr(driver, "_file", None) is None
         raw_ok = True
